@@ -177,8 +177,10 @@ def upload_body() -> bytes:
 
 def request(client, verb: str, path: str, body: bytes | None, headers: dict):
     """Any verb through the falcon test client; returns (status, headers(lowercased), content)."""
+    import io
+
     tc = client._client
-    kw = {"headers": headers}
+    kw = {"headers": headers, "wsgierrors": io.StringIO()}     # (falcon writes unexpected-exception tracebacks there)
     if body is not None:
         kw["body"] = body
     r = tc.simulate_request(verb, path, **kw)
@@ -206,6 +208,30 @@ PROOF_ORIGIN = "worker-1"
 PROOF_LABEL = "edge-proxy"
 STUB_DECL_HEADER = "X-Edge-Client-Cert"
 STUBGATE_DECL_HEADER = "X-Edge-Proof"
+PEM_HEADER = "X-SSL-Client-Cert"
+_PEMS: dict = {}
+
+
+def pem_cert(expired: bool) -> str:
+    """A self-signed client certificate (valid now / expired last year), PEM text."""
+    if expired not in _PEMS:
+        import datetime
+
+        from cryptography import x509
+        from cryptography.hazmat.primitives import hashes, serialization
+        from cryptography.hazmat.primitives.asymmetric import ec
+        from cryptography.x509.oid import NameOID
+
+        key = ec.generate_private_key(ec.SECP256R1())
+        name = x509.Name([x509.NameAttribute(NameOID.COMMON_NAME, "alice")])
+        now = datetime.datetime.now(datetime.UTC)
+        start, end = (now - datetime.timedelta(days=800), now - datetime.timedelta(days=400)) if expired else \
+                     (now - datetime.timedelta(days=1), now + datetime.timedelta(days=30))
+        cert = (x509.CertificateBuilder().subject_name(name).issuer_name(name).public_key(key.public_key())
+                .serial_number(x509.random_serial_number()).not_valid_before(start).not_valid_after(end)
+                .sign(key, hashes.SHA256()))
+        _PEMS[expired] = cert.public_bytes(serialization.Encoding.PEM).decode()
+    return _PEMS[expired]
 ALICE = None  # set lazily (AuthContext import is at module top, but keep construction in one place)
 
 
@@ -213,24 +239,48 @@ def alice(domain: str = "stub") -> AuthContext:
     return AuthContext(domain=domain, authenticated=True, principal="alice", claims={"role": "user"})
 
 
-def _raise_for(out: str):
+SPECIAL_DETAIL = '<script>alert("x")</script> & \'q\' \\ back\\slash é 漢字 \t tab \n newline \x7f end'
+DETAILS = {"shared": "access denied", "empty": "", "special": SPECIAL_DETAIL}
+
+
+def detail_of(req, default: str) -> str:
+    """The rejection text a stub uses: X-Detail names a class (or 'u:<n>' for a text nobody else used)."""
+    d = req.get_header("X-Detail")
+    if not d:
+        return default
+    if d.startswith("u:"):
+        return f"unique rejection text number {d[2:]}"
+    return DETAILS.get(d, default)
+
+
+def _raise_for(out: str, detail: str | None = None):
     from vgi_rpc.http import AuthFailure, AuthReason, AuthUnavailableError, ProofError
+    from vgi_rpc.http._unauthorized import REASON_ATTR
+
+    def txt(default: str) -> str:
+        return default if detail is None else detail
 
     table = {"miss": AuthReason.MISSING_CREDENTIAL, "inv": AuthReason.INVALID_CREDENTIAL,
              "exp": AuthReason.EXPIRED_CREDENTIAL, "scope": AuthReason.INSUFFICIENT_SCOPE,
              "proxy": AuthReason.PROXY_REQUIRED, "unauth": AuthReason.UNAUTHORIZED}
     if out in table:
-        raise AuthFailure(table[out], f"stub says {out}")
+        raise AuthFailure(table[out], txt(f"stub says {out}"))
     if out == "ve":
-        raise ValueError("stub: bad credentials")
+        raise ValueError(txt("stub: bad credentials"))
     if out == "pe":
-        raise PermissionError("stub: forbidden")
+        raise PermissionError(txt("stub: forbidden"))
     if out == "proof":
-        raise ProofError("bad_mac", "stub proof error")
+        raise ProofError("bad_mac", txt("stub proof error"))
     if out == "down":
-        raise AuthUnavailableError("identity provider timed out", retry_after=7)
+        raise AuthUnavailableError(txt("identity provider timed out"), retry_after=7)
     if out == "bogus":
-        raise AuthFailure("made_up_reason", "stub with a reason outside the closed set")  # type: ignore[arg-type]
+        raise AuthFailure("made_up_reason", txt("stub with a reason outside the closed set"))  # type: ignore[arg-type]
+    if out == "ve_sub":
+        raise UnicodeDecodeError("utf-8", b"\xff", 0, 1, txt("stub: credential is not text"))
+    if out == "pe_attr":
+        exc = PermissionError(txt("stub: certificate revoked"))
+        setattr(exc, REASON_ATTR, AuthReason.INVALID_CREDENTIAL)
+        raise exc
     raise RuntimeError(f"unknown stub outcome {out!r}")
 
 
@@ -258,7 +308,7 @@ def build_tree(node: dict, ids: list | None = None, *, proof_now=None, replay_ca
                 LOG.append(f"auth:{_me}:stub:{out}")
                 if out == "ok":
                     return alice()
-                _raise_for(out)
+                _raise_for(out, detail_of(req, None))  # type: ignore[arg-type]
 
             if node["decl"]:
                 declare_proxy_headers(stub, STUB_DECL_HEADER)
@@ -267,6 +317,10 @@ def build_tree(node: dict, ids: list | None = None, *, proof_now=None, replay_ca
             inner = bearer_authenticate_static(tokens={f"good-{me}": alice("bearer")})
         elif impl == "xfcc":
             inner = mtls_authenticate_xfcc()
+        elif impl == "pem":
+            from vgi_rpc.http import mtls_authenticate
+
+            inner = mtls_authenticate(validate=lambda cert: alice("mtls"), header=PEM_HEADER, check_expiry=True)
         else:
             raise RuntimeError(impl)
 
@@ -342,6 +396,15 @@ def tree_headers(node: dict, rng, ids: list | None = None, *, now: int | None = 
                 h["x-forwarded-client-cert"] = 'Hash=abc;Subject="CN=alice,O=org"'
             elif out == "inv":
                 h["x-forwarded-client-cert"] = ","
+        elif impl == "pem":
+            from urllib.parse import quote
+
+            if out == "ok":
+                h[PEM_HEADER] = quote(pem_cert(expired=False))
+            elif out == "exp":
+                h[PEM_HEADER] = quote(pem_cert(expired=True))
+            elif out == "inv":
+                h[PEM_HEADER] = rng.choice(["not-a-certificate", quote("-----BEGIN CERTIFICATE-----\nAAAA\n-----END CERTIFICATE-----\n")])
     elif k == "chain":
         for m in node["ms"]:
             h.update(tree_headers(m, rng, ids, now=now))
